@@ -268,6 +268,11 @@ def filter_args(func, ignore_lst, args=(), kwargs=dict()):
         class_method_sig = inspect.signature(func.__func__)
         self_name = next(iter(class_method_sig.parameters))
         arg_names = [self_name] + arg_names
+        self_param = class_method_sig.parameters[self_name]
+        if self_param.kind is self_param.POSITIONAL_ONLY:
+            # def f(self, /, **kwargs): a keyword named 'self' is a surplus
+            # keyword, it does not rebind the instance.
+            arg_posonlyargs = [self_name] + arg_posonlyargs
     # XXX: Maybe I need an inspect.isbuiltin to detect C-level methods, such
     # as on ndarrays.
 
